@@ -98,6 +98,8 @@ class Run:
         self.rejected = []      # (event, names)
         self.samples = []
         self.notes = []
+        self.distinct = 0
+        self.distinct_nontrivial = 0
         self.drift = 0
         self.undecided = 0
 
@@ -168,6 +170,8 @@ class Run:
             raise Infra("driver %s failed rc=%d:\n%s" % (driver, p.returncode, p.stderr[-3000:]))
         info = json.loads(p.stdout.strip().splitlines()[-1])
         self.drivers.append(info)
+        self.distinct += info.get("distinct", 0)
+        self.distinct_nontrivial += info.get("distinct_nontrivial", 0)
         for k, v in info["classes"].items():
             self.classes[k] = self.classes.get(k, 0) + v
         return outdir
@@ -301,8 +305,11 @@ def write_evidence(run, level, violations, rule, extra=None, assumptions=None, n
         "traces_validated_against_impl": run.traces,
         "samples": run.samples or [{"note": "no trace event sampled"}],
         "evaluations": run.events,
-        "distinct_nontrivial": nontrivial if nontrivial is not None else run.events,
-        "rule": rule,
+        "distinct_events": run.distinct,
+        "distinct_nontrivial": run.distinct_nontrivial,
+        "rule": rule + " | distinct = distinct recorded events (64-bit hash of the event, counted by the harness); non-trivial = not "
+                       "decided by a NaN/infinity prologue and with a non-zero result or a raised condition (call events), a string "
+                       "longer than one byte or accepted (parse events), every event of the other families",
         "events_validated": run.events,
         "events_by_class": run.classes,
         "model_checks": run.mc,
